@@ -165,6 +165,7 @@ def fragment(
     raw_subdelims: bool = False,
     resources: dict[str, pathlib.Path] | None = None,
     resource_rename: dict[str, dict[str, str]] | None = None,
+    minimal_ns: bool = False,
 ) -> Layout:
     """Write a fragmented copy of the model at ``src_aird`` below ``dst``.
 
@@ -172,6 +173,9 @@ def fragment(
     main_rel: relocate the main semantic file (project-relative), default: keep its name.
     resource_rename: {library name: {old file: new file}} (library-relative): rename files inside a library
         resource (e.g. to the very name the project's own semantic file has) and re-point every reference.
+    minimal_ns: a fragment root declares only the namespaces in use in its file (xmi, xsi, its own tag's, those of the
+        xsi:type values inside) - what Capella writes - instead of every namespace of the main file (the default; a
+        saving tool then has more to tidy up).
     """
     raw = (raw_nonascii, raw_subdelims)
     src_aird = pathlib.Path(src_aird)
@@ -347,10 +351,21 @@ def fragment(
     _write(aird_tree, pdir / aird_name)
 
     # ---- semantic files
-    for fname, root in trees.items():
+    for fname, root in list(trees.items()):
         if fname == new_main:
             _write(main_tree, pdir / fname)
         else:
+            if minimal_ns:
+                used = {"xmi", "xsi", etree.QName(root).namespace and next(k for k, v in root.nsmap.items() if v == etree.QName(root).namespace)}
+                for e in root.iter():
+                    if isinstance(e.tag, str) and ":" in (e.get(XT) or "") and e.get(XT).split(":")[0] in root.nsmap:
+                        used.add(e.get(XT).split(":")[0])
+                slim = etree.Element(root.tag, nsmap={k: v for k, v in root.nsmap.items() if k in used})
+                for k, v in root.attrib.items():
+                    slim.set(k, v)
+                for ch in list(root):
+                    slim.append(ch)
+                root = trees[fname] = slim
             if version_comment:
                 root.addprevious(etree.Comment(version_comment))
             _write(etree.ElementTree(root), pdir / fname)
